@@ -180,10 +180,16 @@ def make_instance(st, cls, owner, mode="live", bk=False, opts=None):
         i = z3.Int(p + ".ci")
         st.forall(i, z3.And(i >= 0, i < n), z3.And(cf(i).isfin(), cf(i).wf()), name="wf-centers-finite")
         st.forall(i, z3.And(i >= 0, i + 1 < n), cf(i).r < cf(i + 1).r, name="wf-centers-increasing")
+        j = z3.Int(p + ".cj")
+        st.forall([i, j], z3.And(i >= 0, i < j, j < n), cf(i).r < cf(j).r, name="wf-centers-monotone")
         f["bins"] = child_list(st, o, "bins", n, with_float=cf, bk=bk)
         shape_uniform_list(st, o, "bins", n)
         f["nanflow"] = sym_child(st, o, "nanflow", bk)
         template(st, f, o, mode, bk, ctype=False)
+        if isinstance(f["value"], VChild):
+            tv = core.V0(f["value"].ref)
+            b0 = core.V0(child_ref(o, "bins", core.KInt(z3.IntVal(0))))
+            st.add(core.SH(b0) == core.SH(tv), core.zk(b0) == core.zk(tv))
     elif cls in ("IrregularlyBin", "Stack"):
         n = z3.Int(p + ".nbins")
         st.add(n >= 1)
@@ -192,6 +198,8 @@ def make_instance(st, cls, owner, mode="live", bk=False, opts=None):
         st.add(tf(z3.IntVal(0)).ninf, tf(z3.IntVal(0)).wf())
         st.forall(i, z3.And(i >= 1, i < n), z3.And(tf(i).isfin(), tf(i).wf()), name="wf-thresholds-finite")
         st.forall(i, z3.And(i >= 1, i + 1 < n), tf(i).r < tf(i + 1).r, name="wf-thresholds-increasing")
+        j = z3.Int(p + ".tj")
+        st.forall([i, j], z3.And(i >= 1, i < j, j < n), tf(i).r < tf(j).r, name="wf-thresholds-monotone")
         f["bins"] = child_list(st, o, "bins", n, with_float=tf, is_tuple=True, bk=bk)
         shape_uniform_list(st, o, "bins", n)
         f["nanflow"] = sym_child(st, o, "nanflow", bk)
@@ -218,7 +226,7 @@ def template(st, f, o, mode, bk, ctype=True):
     if mode == "live":
         f["value"] = sym_child(st, o, "value", bk)
         tv = core.V0(f["value"].ref)
-        st.add(core.E(tv) == 0)
+        st.add(core.E(tv) == 0, tv == core.vzero(tv))  # the template is an unfilled aggregator
         if ctype:
             f["contentType"] = VStr(core.cname(core.SH(tv)))
     else:
@@ -240,7 +248,7 @@ def shape_uniform_list(st, o, field, n, classes_only=False):
             core.bagrange(core.SH(core.V0(r_i))) == core.bagrange(core.SH(core.V0(r_0))),
         )
     else:
-        body = core.SH(core.V0(r_i)) == core.SH(core.V0(r_0))
+        body = z3.And(core.SH(core.V0(r_i)) == core.SH(core.V0(r_0)), core.zk(core.V0(r_i)) == core.zk(core.V0(r_0)))
     st.forall(i, z3.And(i >= 0, i < n), body, name=f"wf-uniform-{field}")
 
 
@@ -251,10 +259,12 @@ def shape_uniform_dict(st, o, field, dom, f, classes_only=False):
     r_k = core.Ref.Old(own, fid, k)
     if f is not None and isinstance(f.get("value"), VChild):
         sh = core.SH(core.V0(f["value"].ref))
+        zk_ = core.zk(core.V0(f["value"].ref))
     else:
         sh = z3.Const(f"shape.{field}{o}", core.Shape)
+        zk_ = z3.Const(f"zk.{field}{o}", core.Shape)
     if classes_only:
         body = z3.And(core.cname(core.SH(core.V0(r_k))) == core.cname(sh), core.bagrange(core.SH(core.V0(r_k))) == core.bagrange(sh))
     else:
-        body = core.SH(core.V0(r_k)) == sh
+        body = z3.And(core.SH(core.V0(r_k)) == sh, core.zk(core.V0(r_k)) == zk_)
     st.forall(k, dom(k), body, name=f"wf-uniform-{field}")
